@@ -122,7 +122,8 @@ fn apply_stall_gate(conns: &mut [SrtlaConnection], current_time_ms: u64, config:
     }
 
     let any_healthy = conns.iter().any(|c| {
-        !c.is_timed_out(current_time_ms)
+        c.connected
+            && !c.is_timed_out(current_time_ms)
             && c.is_schedulable()
             && !c.stall_latched()
             && !c.silence_pulled
